@@ -262,6 +262,7 @@ type Node struct {
 	opened   int
 	LastReq  abci.RequestBeginBlock
 	Probe   *common.Address // environment-reading contract (deploy_probe)
+	Agent   *common.Address // contract through which accounts reach the staking precompile (deploy_agent)
 	Sprayer  *common.Address // contract that pays 1 unit to eight fresh low addresses (scenario state)
 	imported *Node // a chain started from this node's exported genesis (C19), if any
 }
